@@ -19,7 +19,11 @@ import tempfile
 
 WORDS = ['ALFA STORE', 'bravo cafe', 'ACME, Inc.', 'JOE "THE" DINER', 'Café Zürich №5', 'X;Y|Z', 'PAY  ROLL', "O'NEIL & SONS",
          'TAB\tINSIDE', 'LINE ONE\nLINE TWO', 'TOTAL DUE\n', '#9 STORE', 'a', '=SUM(A1)', '2" X 4" BOARD', '"', 'Ünïcode ✓',
-         'SEATTLE WA', 'x' * 60, '100.00', '01/05/2025']
+         'SEATTLE WA', 'x' * 60, '100.00', '01/05/2025',
+         # line breaks in a row INSIDE a quoted cell, also with nothing (or blanks) between them
+         'ACME HARDWARE\n\nSPRINGFIELD', 'Unit 4\n \nRear door']
+# (no carriage return inside a cell: tally opens statements with universal newlines, so "\r\n" inside a quoted cell is read as
+#  "\n" - a line-ending normalisation the statement does not speak about; excluded rather than judged)
 DATE_FORMATS = ['%m/%d/%Y', '%Y-%m-%d', '%d.%m.%Y', '%d %b %y', '%m/%d/%y']
 CUR = ['$', '€', '£', '¥']
 
